@@ -52,7 +52,7 @@ def run(tier, corrupt=False):
     v = Verdict(PROP, tier)
     types = library()
     with scratch("c03-") as tmp:
-        progs = full_corpus(tmp, tier)
+        progs = full_corpus(tmp, tier, n_generated=(None if tier == "quick" else 400))      # (1,500 generated programs took an hour and 25 GB)
         from .c02 import merge_stats, program_groups
         all_progs = progs
         live = liveness(tmp, progs, types)
